@@ -114,13 +114,13 @@ func (x *Exec) native(name string, fn *ssa.Function, args []Value) (Value, bool)
 		if _, ok := args[0].(*Str).concrete(); ok {
 			return strOf(regexp.QuoteMeta(mustStr(args[0]))), true
 		}
-		if inQuoteMeta {
+		if x.inQuoteMeta {
 			return nil, false
 		}
-		inQuoteMeta = true
+		x.inQuoteMeta = true
 		r := x.call(fn, args, nil) // real body on symbolic bytes
-		inQuoteMeta = false
-		quoted[r.(*Str)] = true
+		x.inQuoteMeta = false
+		x.quoted[r.(*Str)] = true
 		return r, true
 	case "regexp.Compile", "regexp.MustCompile":
 		if pat, ok := args[0].(*Str); ok {
@@ -128,9 +128,8 @@ func (x *Exec) native(name string, fn *ssa.Function, args []Value) (Value, bool)
 				// contract: error iff invalid UTF-8, or (free) syntax error unless pattern is QuoteMeta output
 				valid := x.call(x.prog.ImportedPackage("unicode/utf8").Func("ValidString"), []Value{pat}, nil).(*Term)
 				bad := !x.branch(valid)
-				if !bad && !quoted[pat] {
-					se := FreshBV("resyntax", 1)
-					registerSym(se)
+				if !bad && !x.quoted[pat] {
+					se := x.FreshBV("resyntax", 1)
 					bad = x.branch(bvcmp("=", se, BV(1, 1)))
 				}
 				if name == "regexp.MustCompile" {
@@ -161,6 +160,22 @@ func (x *Exec) native(name string, fn *ssa.Function, args []Value) (Value, bool)
 			re.Longest()
 		}
 		return nil, true
+	case "(*regexp.Regexp).FindIndex":
+		re, isRe := args[0].(Ptr).o.(*Cell).v.(Native).v.(*regexp.Regexp)
+		data := args[1].(SliceV)
+		bs := x.sliceBytes(data)
+		if conc, ok := (&Str{b: bs}).concrete(); ok && isRe {
+			loc := re.FindIndex([]byte(conc))
+			return x.intSlice(loc), true
+		}
+		if !isRe {
+			panic(abortPath{"FindIndex on a symbolic-pattern regexp", false})
+		}
+		model := x.harnessPkg.Func("verifRegexFindIndex")
+		if model == nil {
+			panic(abortPath{"FindIndex on symbolic data without a harness model", false})
+		}
+		return x.call(model, []Value{strOf(re.String()), data}, nil), true
 	case "(*regexp.Regexp).MatchString":
 		re := args[0].(Ptr).o.(*Cell).v.(Native).v.(*regexp.Regexp)
 		return Bool(re.MatchString(mustStr(args[1]))), true
@@ -289,10 +304,20 @@ func (x *Exec) native(name string, fn *ssa.Function, args []Value) (Value, bool)
 	return nil, false
 }
 
+// intSlice builds a []int value (nil for a nil Go slice)
+func (x *Exec) intSlice(v []int) Value {
+	if v == nil {
+		return SliceV{}
+	}
+	a := &ArrayObj{e: make([]Obj, len(v))}
+	for i := range v {
+		a.e[i] = &Cell{v: BV(uint64(int64(v[i])), 64)}
+	}
+	return SliceV{a: a, len: len(v), cap: len(v)}
+}
+
 func boolTerm(v Value) *Term { return v.(*Term) }
 
-var quoted = map[*Str]bool{}
-var inQuoteMeta bool
 
 // strconv.ParseFloat on a symbolic string: real special()/readFloat() decide syntax,
 // digit->binary conversion is the uninterpreted function pf_val, range error a free boolean.
@@ -320,8 +345,7 @@ func (x *Exec) symParseFloat(s *Str) Value {
 		return t.s
 	}
 	val := mk("(pf_val "+rf[0].(*Term).s+" "+rf[1].(*Term).s+" "+bs(boolTerm(rf[2]))+" "+bs(boolTerm(rf[3]))+" "+bs(boolTerm(rf[4]))+")", Sort{FP: true})
-	rng := FreshBV("rangeerr", 1)
-	registerSym(rng)
+	rng := x.FreshBV("rangeerr", 1)
 	if x.branch(bvcmp("=", rng, BV(1, 1))) {
 		return Tuple{val, x.newError("strconv.ParseFloat: value out of range")}
 	}
